@@ -13,7 +13,7 @@ SPEC = '''
 pub uninterp spec fn text6(orig: Seq<u8>, p: int, n: int) -> Seq<char>;
 
 ''' + leaf_post('text_post', 'AsciiString', '6 * (size / 6)', 'x@ == text6(orig, p, size / 6)', params='size: int, ', cur='input') \
-    + leaf_post('signed_post', 'i32', 'len', 'x as int == sext(v, len)', params='len: int, ', cur='input') + '''
+    + leaf_post('signed_post', 'i32', 'len', 'x as int == sext(v, len) && -nom::bits::complete::pow2(len - 1) <= x < nom::bits::complete::pow2(len - 1)', params='len: int, ', cur='input') + '''
 pub open spec fn message_type_post(data: &[u8], r: nom::IResult<&[u8], u8>) -> bool {
     &&& (r is Ok <==> data@.len() >= 1)
     &&& (r is Err ==> is_error(r))
